@@ -1,0 +1,11 @@
+//go:build verif
+// +build verif
+
+package threadlocal
+
+// Getg returns the key under which the local storage of the calling go routine is kept: what getg() reads
+// from the header of runtime.Stack (read-only; compiled only with the build tag `verif`, used by the
+// verification harness of property C14 to tie the model of getg to the code).
+func Getg() int64 {
+	return getg()
+}
